@@ -182,7 +182,7 @@ impl<'a> Ctx<'a> {
 			}
 		}
 		// the same file arriving in short reads: still read, still written back identically
-		let frag = if self.built.bytes.len() % 2 == 0 { crate::stream::Frag::Random(self.built.bytes.len() as u64) } else { crate::stream::Frag::Fixed(1 + self.built.bytes.len() % 6) };
+		let frag = if self.built.bytes.len() % 2 == 0 { crate::stream::Frag::RandomIntr(self.built.bytes.len() as u64) } else { crate::stream::Frag::Fixed(1 + self.built.bytes.len() % 6) };
 		let mut r = crate::stream::FragReader::new(&self.built.bytes, frag.clone());
 		match guard(|| slippi::read(&mut r, None)) {
 			Outcome::Ok(g2) => match real::write_slp(&g2) {
@@ -689,7 +689,7 @@ impl<'a> Ctx<'a> {
 			};
 			// the same bytes arriving in pieces (the unknown payload is then skipped across several reads)
 			{
-				let frag = if with.bytes.len() % 2 == 0 { crate::stream::Frag::Random(with.bytes.len() as u64) } else { crate::stream::Frag::Fixed(1 + with.bytes.len() % 6) };
+				let frag = if with.bytes.len() % 2 == 0 { crate::stream::Frag::RandomIntr(with.bytes.len() as u64) } else { crate::stream::Frag::Fixed(1 + with.bytes.len() % 6) };
 				let r = crate::stream::FragReader::new(&with.bytes, frag);
 				match crate::util::guard(|| peppi::io::slippi::read(r, None)) {
 					Outcome::Ok(gf) => {
